@@ -301,6 +301,16 @@ func Run(j *job.Job, s *job.Sink) {
 				extra(gr.Body, "zzrev2g")
 			}
 			v2 := schema.Print(m)
+			// the two revisions also differ in what a typedef means, and each has its own
+			// identity of one name; a third module refers to both through an import without
+			// revision-date, so what it sees must move to the newer revision when that arrives
+			addTail := func(t, extra string) string {
+				k := strings.LastIndex(t, "}")
+				return t[:k] + extra + t[k:]
+			}
+			v1 = addTail(v1, "  identity zzidrev;\n  typedef zzrt { type string; units \"old\"; }\n")
+			v2 = addTail(v2, "  identity zzidrev;\n  identity zzidnew { base zzidrev; }\n  typedef zzrt { type int8; units \"new\"; }\n")
+			revUser := fmt.Sprintf("module zzrevuser {\n  namespace \"urn:zzrevuser\";\n  prefix zru;\n  import %s { prefix zp; }\n  identity zzy { base zp:zzidrev; }\n  typedef zzlocal { type zp:zzrt; }\n  leaf zzl { type identityref { base zp:zzidrev; } }\n  leaf zzt { type zp:zzrt; }\n  leaf zzt2 { type zzlocal; }\n  leaf zzu { type union { type zp:zzrt; type boolean; } }\n}\n", m.Name)
 			replaced := false
 			for k := range ops {
 				// only when the loaded text is the pristine one (no injected fault)
@@ -316,6 +326,10 @@ func Run(j *job.Job, s *job.Sink) {
 					at = r.Intn(len(ops) + 1)
 				}
 				ops = append(ops[:at], append([]op{late}, ops[at:]...)...)
+				if m.Name != "" && r.Intn(4) > 0 {
+					ua := r.Intn(at + 1) // usually before the newer revision, so that a run binds it to the older one first
+					ops = append(ops[:ua], append([]op{{"load", "zzrevuser.yang", revUser}, {Kind: "process"}}, ops[ua:]...)...)
+				}
 				if r.Intn(2) == 0 {
 					ops = append(ops, op{Kind: "process"})
 				}
